@@ -2,7 +2,7 @@
    Model: model/Meta.v (every schedule of request micro-steps, Notify goroutines, persist
    steps, SIGKILLs and restarts).  Proofs: proofs/MetaProofs.v. *)
 From Coq Require Import List NArith Bool Arith.
-From NSQV Require Import model.Judge model.Names model.Meta proofs.MetaProofs.
+From NSQV Require Import model.Judge model.Names model.Meta proofs.MetaProofs proofs.MetaPause.
 Import ListNotations.
 Open Scope nat_scope.
 
@@ -30,6 +30,28 @@ Theorem C06_idle_full : forall evs,
   exists c, dat (fs s) = Some c /\ complete c = true /\ f_synced c = true /\ f_doc c = snapshot (live_ s).
 Proof. exact idle_full. Qed.
 Print Assumptions C06_idle_full.
+
+(* A pause/unpause request (thread i) for a valid, non-ephemeral topic t arrives in any
+   reachable state.  From then on no OTHER request creates, deletes or (un)pauses t and
+   thread id i is not reused (ev_ok); everything else is arbitrary: other requests on other
+   topics and on t's channels, Notify goroutines, persist steps in any interleaving, kills
+   and restarts.  If the request is answered 200, then at every later instant nsqd.dat is a
+   complete document that lists t with exactly that paused flag -- in particular after any
+   SIGKILL and restart.  (quiet: no request in flight at the arrival touches t.) *)
+Theorem C06_pause_acked : forall (t : name) (b : bool) (i : N),
+  eph t = false -> valid t = true ->
+  forall pre evs,
+  let s0 := run init pre in
+  get_thread i (threads s0) = Some [MEnter (OPauseTopic t b)] ->
+  quiet t i s0 -> ~ In (i, 200%N) (acks s0) ->
+  Forall (ev_ok t i) evs ->
+  let s := run s0 evs in
+  In (i, 200%N) (acks s) ->
+  exists c, dat (fs s) = Some c /\ complete c = true /\
+            (exists e, In e (f_doc c) /\ dt_name e = t) /\
+            (forall e, In e (f_doc c) -> dt_name e = t -> dt_paused e = b).
+Proof. exact pause_acked_topic. Qed.
+Print Assumptions C06_pause_acked.
 
 (* ------------------------------------------------------------------ non-vacuity *)
 Definition P8 : list ev := repeat (EPersist 4096%N) 8.
@@ -67,3 +89,18 @@ Example C06_witness_kill_in_write :
   option_map f_doc (dat (fs s)) = Some [] /\
   map (fun x => (f_written (snd x), complete (snd x))) (tmps (fs s)) = [(1, false)].
 Proof. vm_compute. repeat split; reflexivity. Qed.
+
+(* the hypotheses of C06_pause_acked are met: pause t, answered 200, then an unrelated
+   creation, a kill in the middle of its persist and a restart -- the flag is in the file *)
+Example C06_witness_pause_acked :
+  let pre := [ERestart] ++ P8 ++ [EStart 1%N (OCreateTopic tname)] ++ steps 1%N 4 ++ [ETask] ++ P8
+             ++ [EStart 2%N (OPauseTopic tname true)] in
+  let evs := steps 2%N 3 ++ P8 ++ steps 2%N 1
+             ++ [EStart 3%N (OCreateTopic [117%N])] ++ steps 3%N 3 ++ [ETask; EPersist 0%N; EPersist 9%N; EKill; ERestart] ++ P8 in
+  let s0 := run init pre in
+  let s := run s0 evs in
+  get_thread 2%N (threads s0) = Some [MEnter (OPauseTopic tname true)] /\
+  In (2%N, 200%N) (acks s) /\ ~ In (2%N, 200%N) (acks s0) /\
+  forallb (fun e => match e with EStart j o => negb (N.eqb j 2) && negb (touches_op tname o) | _ => true end) evs = true /\
+  option_map f_doc (dat (fs s)) = Some [mkDT tname true []] /\ idle s.
+Proof. vm_compute. intuition (try discriminate; auto). Qed.
